@@ -232,14 +232,25 @@ impl<SystemType : System> History<SystemType>
             Err(_) => return Err(HistoryError::CannotSerializeRuleHistory(rule_history_file_path)),
         };
 
-        let mut file =
-        match system.create_file(&rule_history_file_path)
+        /*  Write to a temporary file and rename it into place, so that the history file
+            is never observed empty or half-written. */
+        let temp_path = format!("{}.tmp", rule_history_file_path);
         {
-            Ok(file) => file,
-            Err(_error) => return Err(HistoryError::CannotWriteRuleHistoryFile(rule_history_file_path)),
-        };
+            let mut file =
+            match system.create_file(&temp_path)
+            {
+                Ok(file) => file,
+                Err(_error) => return Err(HistoryError::CannotWriteRuleHistoryFile(rule_history_file_path)),
+            };
 
-        match file.write_all(&content)
+            match file.write_all(&content)
+            {
+                Ok(_) => {},
+                Err(_error) => return Err(HistoryError::CannotWriteRuleHistoryFile(rule_history_file_path)),
+            }
+        }
+
+        match system.rename(&temp_path, &rule_history_file_path)
         {
             Ok(_) => Ok(()),
             Err(_error) => Err(HistoryError::CannotWriteRuleHistoryFile(rule_history_file_path)),
